@@ -74,10 +74,71 @@ def build(case):
     for a, b in case["bonds"]:
         top.add_bond(atoms[a], atoms[b])
     xyz = np.array([f["xyz"] for f in frames], dtype=np.float64).reshape(len(frames), n, 3) / G
-    t = md.Trajectory(xyz.astype(np.float32), top, time=np.array([f["time"] for f in frames], dtype=np.float32))
-    t.unitcell_lengths = np.array([[v / G for v in f["cell"]["lengths"]] for f in frames], dtype=np.float32)
-    t.unitcell_angles = np.array([f["cell"]["angles"] for f in frames], dtype=np.float32)
+    times = np.array([f["time"] for f in frames], dtype=np.float32)
+    tm = case.get("time_mode") or "ctor"
+    if tm == "ctor":
+        t = md.Trajectory(xyz.astype(np.float32), top, time=times)
+    else:
+        # built WITHOUT time= (the constructor fills in 0,1,2..); "late*": the real times are assigned afterwards
+        t = md.Trajectory(xyz.astype(np.float32), top)
+        if tm == "late32":
+            t.time = times.copy()
+        elif tm == "late64":
+            t.time = times.astype(np.float64)
+        elif tm == "latelist":
+            t.time = [float(x) for x in times] if len(times) > 1 else float(times[0])
+    ul = np.array([[v / G for v in f["cell"]["lengths"]] for f in frames], dtype=np.float64)
+    ua = np.array([f["cell"]["angles"] for f in frames], dtype=np.float64)
+    if (case.get("cell_mode") or "lengths32") == "vectors64":
+        # the cell assigned through unitcell_vectors in double precision: mdtraj then holds float64 lengths/angles
+        from mdtraj.utils.unitcell import lengths_and_angles_to_box_vectors
+        v = lengths_and_angles_to_box_vectors(ul[:, 0], ul[:, 1], ul[:, 2], ua[:, 0], ua[:, 1], ua[:, 2])
+        t.unitcell_vectors = np.swapaxes(np.dstack(v), 1, 2).astype(np.float64)
+    else:
+        t.unitcell_lengths = ul.astype(np.float32)
+        t.unitcell_angles = ua.astype(np.float32)
     return t, atoms
+
+
+def snap(t):
+    """bit-exact picture of the arrays of a trajectory: dtype, shape and bytes of xyz / time / unit-cell lengths / angles"""
+    out = {}
+    for k in ("xyz", "time", "unitcell_lengths", "unitcell_angles"):
+        a = getattr(t, k)
+        out[k] = None if a is None else (str(a.dtype), tuple(a.shape), np.ascontiguousarray(a).tobytes())
+    return out
+
+
+def snap_diff(a, b, keys=("xyz", "time", "unitcell_lengths", "unitcell_angles")):
+    """names of the arrays that differ between two snapshots, with what differs (dtype / shape / values)"""
+    bad = []
+    for k in keys:
+        x, y = a[k], b[k]
+        if x == y:
+            continue
+        if x is None or y is None:
+            bad.append(k + ":None")
+        elif x[0] != y[0]:
+            bad.append("%s:dtype %s->%s" % (k, x[0], y[0]))
+        elif x[1] != y[1]:
+            bad.append("%s:shape" % k)
+        else:
+            bad.append("%s:values" % k)
+    return bad
+
+
+def kernel_boxes(t, inplace=False):
+    """the float32 cell matrices the kernels receive for t.  A cell held in double precision reaches them either through
+    the copy (inplace=False: the constructor of the copy casts lengths/angles to single precision, unitcell_vectors converts
+    those) or, with inplace=True, as the single-precision cast of the double-precision vectors"""
+    if (str(t.unitcell_lengths.dtype) == "float32" and str(t.unitcell_angles.dtype) == "float32") or inplace:
+        return np.asarray(t.unitcell_vectors, dtype=np.float32).copy()
+    return np.asarray(t.slice(slice(None), copy=True).unitcell_vectors, dtype=np.float32).copy()
+
+
+def same_values32(a, b):
+    """a (result) against b (input) up to the single-precision normalisation of a copy"""
+    return bool(a is not None and b is not None and a.shape == b.shape and np.array_equal(np.asarray(a, dtype=np.float32), np.asarray(b, dtype=np.float32)))
 
 
 def exact_box(m):
@@ -91,11 +152,15 @@ def exact_box(m):
 
 def run_case(case):
     out = {"err": None}
+    t = before_bits = None
     try:
         t, atoms = build(case)
         n = t.n_atoms
         before = {"xyz": t.xyz.copy(), "ul": t.unitcell_lengths.copy(), "ua": t.unitcell_angles.copy(), "time": t.time.copy()}
-        boxes = np.asarray(t.unitcell_vectors, dtype=np.float32).copy()
+        boxes = kernel_boxes(t, bool(case["inplace"]))
+        out["cell_dtype"] = str(t.unitcell_lengths.dtype)
+        out["time_dtype"] = str(t.time.dtype)
+        before_bits = snap(t)
         pairs = np.array(list(itertools.combinations(range(n), 2)), dtype=int).reshape(-1, 2)
         d_before = md.compute_distances(t, pairs, periodic=True) if len(pairs) else None
         kw = {"inplace": bool(case["inplace"])}
@@ -145,11 +210,13 @@ def run_case(case):
         except Exception:  # noqa: BLE001
             out["guessed"] = "error"
         out["returned_is_self"] = res is t
-        out["orig_xyz_same"] = bool(np.array_equal(t.xyz.view(np.uint32), before["xyz"].view(np.uint32)))
-        out["orig_cell_same"] = bool(np.array_equal(t.unitcell_lengths, before["ul"]) and np.array_equal(t.unitcell_angles, before["ua"]))
-        out["orig_time_same"] = bool(np.array_equal(t.time, before["time"]))
-        out["res_cell_same"] = bool(np.array_equal(res.unitcell_lengths, before["ul"]) and np.array_equal(res.unitcell_angles, before["ua"]))
-        out["res_time_same"] = bool(np.array_equal(res.time, before["time"]))
+        after_bits = snap(t)
+        out["input_changed"] = snap_diff(before_bits, after_bits)          # bit-exact, dtype included
+        out["orig_xyz_same"] = not any(x.startswith("xyz") for x in out["input_changed"])
+        out["orig_cell_same"] = not any(x.startswith("unitcell") for x in out["input_changed"])
+        out["orig_time_same"] = not any(x.startswith("time") for x in out["input_changed"])
+        out["res_cell_same"] = same_values32(res.unitcell_lengths, before["ul"]) and same_values32(res.unitcell_angles, before["ua"])
+        out["res_time_same"] = same_values32(res.time, before["time"])
         out["shares_memory"] = bool(np.shares_memory(res.xyz, t.xyz))
         d_after = md.compute_distances(res, pairs, periodic=True) if len(pairs) else None
         bonds = np.array([[a.index, b.index] for a, b in t.topology.bonds], dtype=int).reshape(-1, 2)
@@ -170,6 +237,11 @@ def run_case(case):
     except Exception as e:  # noqa: BLE001
         out["err"] = type(e).__name__
         out["msg"] = str(e)[:300]
+        if t is not None and before_bits is not None:
+            try:      # a call that refuses must leave its input alone as well
+                out["input_changed"] = snap_diff(before_bits, snap(t))
+            except Exception:  # noqa: BLE001
+                pass
     return out
 
 
@@ -201,7 +273,8 @@ def reimage_step(t, op):
           "before": [t.xyz[f].astype(np.float64).tolist() for f in range(nf)],
           "xyz_flags": {"c_contiguous": bool(t.xyz.flags["C_CONTIGUOUS"]), "owndata": bool(t.xyz.flags["OWNDATA"])}}
     before = {"xyz": np.array(t.xyz, copy=True), "ul": t.unitcell_lengths.copy(), "ua": t.unitcell_angles.copy(), "time": t.time.copy()}
-    boxes = np.asarray(t.unitcell_vectors, dtype=np.float32).copy()
+    boxes = kernel_boxes(t, bool(op["inplace"]))
+    before_bits = snap(t)
     pairs = np.array(list(itertools.combinations(range(n), 2)), dtype=int).reshape(-1, 2)
     d_before = md.compute_distances(t, pairs, periodic=True) if len(pairs) else None
     mols = [sorted(a.index for a in mol) for mol in top.find_molecules()]
@@ -219,11 +292,12 @@ def reimage_step(t, op):
         res = t.image_molecules(**kw)
     target = t if st["inplace"] else res
     st["returned_is_self"] = res is t
-    st["orig_xyz_same"] = bool(np.array_equal(np.ascontiguousarray(t.xyz).view(np.uint32), np.ascontiguousarray(before["xyz"]).view(np.uint32)))
-    st["orig_cell_same"] = bool(np.array_equal(t.unitcell_lengths, before["ul"]) and np.array_equal(t.unitcell_angles, before["ua"]))
-    st["orig_time_same"] = bool(np.array_equal(t.time, before["time"]))
-    st["res_cell_same"] = bool(np.array_equal(res.unitcell_lengths, before["ul"]) and np.array_equal(res.unitcell_angles, before["ua"]))
-    st["res_time_same"] = bool(np.array_equal(res.time, before["time"]))
+    st["input_changed"] = snap_diff(before_bits, snap(t))              # bit-exact, dtype included
+    st["orig_xyz_same"] = not any(x.startswith("xyz") for x in st["input_changed"])
+    st["orig_cell_same"] = not any(x.startswith("unitcell") for x in st["input_changed"])
+    st["orig_time_same"] = not any(x.startswith("time") for x in st["input_changed"])
+    st["res_cell_same"] = same_values32(res.unitcell_lengths, before["ul"]) and same_values32(res.unitcell_angles, before["ua"])
+    st["res_time_same"] = same_values32(res.time, before["time"])
     st["shares_memory"] = bool(np.shares_memory(res.xyz, t.xyz))
     d_after = md.compute_distances(target, pairs, periodic=True) if len(pairs) else None
     bonds = np.array(st["bonds_now"], dtype=int).reshape(-1, 2)
